@@ -131,7 +131,7 @@ def analyse(rec: dict) -> list[dict]:
     return outs
 
 
-EF_HEADER = "From SV Require Import Tree.Extract Tree.TotalDefs.\nOpen Scope string_scope."
+EF_HEADER = "From SV Require Import Tree.Extract Tree.TotalDefs Tree.TotalValue3.\nOpen Scope string_scope."
 
 
 def run(records: list[dict], shard: int = 30, escape_free: bool = False) -> list[dict]:
@@ -145,7 +145,7 @@ def run(records: list[dict], shard: int = 30, escape_free: bool = False) -> list
     for i, m in zip(idx, model):
         res[i]["model"] = m
     if escape_free:
-        efs = coq_eval(EF_HEADER, ['if escape_free (%s) then "ef" else "not-ef"' % res[i]["seg_term"] for i in idx], shard=shard)
+        efs = coq_eval(EF_HEADER, ['((if escape_free (%s) then "ef" else "not-ef") ++ (if nw_inner (%s) then "+nw" else ""))%%string' % (res[i]["seg_term"], res[i]["seg_term"]) for i in idx], shard=shard)
         for i, m in zip(idx, efs):
             res[i]["escape_free"] = m
     for r in res:
